@@ -130,3 +130,16 @@ impl VoronoiFace {
         self.inner.right.is_none()
     }
 }
+
+#[cfg(feature = "verif-hooks")]
+impl VoronoiFace {
+    pub fn vh_init<M: ConvexCellMarker>(convex_cell: &ConvexCell<M>, clipping_plane_idx: usize) -> Self {
+        Self::init(convex_cell, clipping_plane_idx)
+    }
+    pub fn vh_collect(&mut self, v0: DVec3, v1: DVec3, v2: DVec3, gen: DVec3) {
+        self.collect(v0, v1, v2, gen)
+    }
+    pub fn vh_finalize(self) -> Self {
+        self.finalize()
+    }
+}
